@@ -51,3 +51,13 @@ Print Assumptions C09_context.
 Theorem C09_rauth_nil_without_credentials : forall T c req, has_creds T req = false -> rauth_of T c req = None.
 Proof. intros T c req H. unfold rauth_of. rewrite H. reflexivity. Qed.
 Print Assumptions C09_rauth_nil_without_credentials.
+
+(* "the session ID established for its own connection": for EVERY sequence of Accept results, the connections handed to
+   session goroutines get the ids 1, 2, 3, ... in accept order (temporary errors and back-offs in between do not consume
+   or repeat a number), so no two connections of a server ever share one *)
+Require Import Accept AcceptProofs.
+Theorem C09_session_ids_distinct : forall rs,
+  NoDup (map session_id (served (fst (serve rs)))) /\
+  map session_id (served (fst (serve rs))) = map (fun k => N.of_nat k) (seq 1 (length (served (fst (serve rs))))).
+Proof. intros rs. split; [apply session_ids_distinct|apply session_ids_consecutive]. Qed.
+Print Assumptions C09_session_ids_distinct.
